@@ -2517,7 +2517,7 @@ run_on_the_fly(const World& w, vh::Rng& rng, bool thorough, bool cylfov)
   Run R(w, rng);
   char buf[320];
   // Two classes of input on which the on-the-fly projector is known to differ from the matrix (repairs proposed as
-  // build/fixes/C04-1.diff, C04-2.diff).  A differing bin is attributed to a class only if it lies exactly where that
+  // docs/fixes/C04-1.diff, C04-2.diff).  A differing bin is attributed to a class only if it lies exactly where that
   // defect acts; anything else stays an ORACLE-FAIL.
   //  A: x/y-anisotropic voxels (the symmetries drop the 90-degrees operations) and views num_views/4, 3 num_views/4:
   //     view+90 and 180-view coincide there and the dispatch takes the "plus_90" code, which exchanges x and y;
